@@ -29,4 +29,11 @@ def matchId (b : Bytes) : Option Bytes :=
     else if isAlpha c then some (c :: (spanWord r).1) else none
   | [] => none
 
+/-- Go's `strconv.ParseInt(s, 10, 64)` syntax: optional sign, then at least one
+digit, nothing else (underscores are only allowed with base 0). -/
+def goIntSyntax (s : Bytes) : Bool :=
+  let (_, r) := optSign s
+  let (ds, rest) := spanDigits r
+  ds ≠ [] && rest = []
+
 end Martian.Lexer
